@@ -8,6 +8,7 @@ import (
 	"sort"
 	"strconv"
 	"strings"
+	"time"
 
 	"pault.ag/go/debian/control"
 
@@ -28,8 +29,16 @@ func mkNode(path, st string) {
 	case strings.HasPrefix(st, "F"):
 		os.RemoveAll(path)
 		os.WriteFile(path, []byte(nodeContent(st[1:])), 0o644)
+		// every generated file carries the same modification time (as the files of reproducible
+		// builds do): size and time say nothing about the content
+		os.Chtimes(path, fixedTime, fixedTime)
 	}
 }
+
+var fixedTime = time.Unix(1577836800, 0)
+
+// the text of a .dsc that lists the .changes file of the generated uploads (and a file "a")
+const dscListingChanges = "Format: 1.0\nSource: s\nVersion: 1\nFiles:\n d41d8cd98f00b204e9800998ecf8427e 1 s_1_amd64.changes\n d41d8cd98f00b204e9800998ecf8427e 1 a\n"
 
 // nodeContent: what a file in state F<id> holds.  F7 is "an older file of the same name that
 // is in the way": it is much longer than anything that replaces it, so a copy that does not
@@ -37,6 +46,9 @@ func mkNode(path, st string) {
 func nodeContent(id string) string {
 	if id == "7" {
 		return "content-7\n" + strings.Repeat("stale line of an earlier, larger build\n", 120)
+	}
+	if id == "500" {
+		return dscListingChanges
 	}
 	return "content-" + id
 }
@@ -60,6 +72,8 @@ func dumpDirFS(dir string, ctl ...string) string {
 		id := fmt.Sprintf("X%x", md5.Sum(b))[:9]
 		if len(ctl) == 1 && string(b) == ctl[0] {
 			id = "999"
+		} else if string(b) == dscListingChanges {
+			id = "500"
 		} else if rest, ok := strings.CutPrefix(string(b), "content-"); ok {
 			if i := strings.IndexByte(rest, '\n'); i >= 0 {
 				rest = rest[:i]
@@ -383,7 +397,7 @@ func streamUpload(g *core.G) {
 	r := g.R
 	n := g.N(400, 20000)
 	srcStates := []string{"F1", "F2", "F3", "M", "D0", "D1"}
-	dstStates := []string{"A", "A", "A", "F7", "D0", "D1"}
+	dstStates := []string{"A", "A", "A", "F7", "F8", "D0", "D1"} // F8: same size and time as what replaces it
 	weird := []string{"/", "//", "../outside/sentinel", "sub/inner", "@ROOT@/outside/sentinel", ".", "..", "../src/a", "a/", "/etc/hostname"}
 	for i := 0; i < n; i++ {
 		op := r.Pick([]string{"copy", "move", "remove"})
@@ -408,8 +422,12 @@ func streamUpload(g *core.G) {
 			st, ds := r.Pick(srcStates[:3]), "A"
 			if j == failAt {
 				st, ds = r.Pick(srcStates), r.Pick(dstStates)
-			} else if r.Chance(1, 10) {
-				ds = "F7" // an older file of the same name is overwritten
+			} else if r.Chance(1, 6) {
+				ds = r.Pick([]string{"F7", "F8"}) // an older file of the same name is overwritten
+			}
+			if kind == "changes" && r.Chance(1, 12) {
+				// the upload's .dsc, a real one, which (wrongly) lists the .changes file itself
+				name, st = "s_1.dsc", "F500"
 			}
 			if r.Chance(1, 25) {
 				name = r.Pick(weird)
